@@ -1375,6 +1375,39 @@ namespace bloch::runtime {
                 for (const auto& v : *pending) markValue(v);
         }
         for (const auto& obj : m_pendingObjects) markObject(obj);
+        // An object may also be held by a value that lives only in the C++ evaluation stack
+        // (an operand waiting for the other side of '==', a receiver, a result on its way to
+        // its destination). Those holders are invisible to the marking above but they show in
+        // the reference count: an unmarked object that has more owners than the unmarked
+        // objects referring to it (plus our own 'objects' vector) is still in use.
+        bool foundExternal = true;
+        while (foundExternal) {
+            foundExternal = false;
+            std::unordered_map<const Object*, long> internalRefs;
+            auto countValue = [&](const Value& v) {
+                if (v.type == Value::Type::Object && v.objectValue && !v.objectValue->marked)
+                    internalRefs[v.objectValue.get()]++;
+                else if (v.type == Value::Type::ObjectArray)
+                    for (const auto& o : v.objectArray)
+                        if (o && !o->marked)
+                            internalRefs[o.get()]++;
+            };
+            for (const auto& obj : objects) {
+                if (obj->marked)
+                    continue;
+                for (const auto& f : obj->fields) countValue(f);
+            }
+            for (const auto& obj : objects) {
+                if (obj->marked)
+                    continue;
+                long owners = obj.use_count();
+                long explained = 1 + internalRefs[obj.get()];  // 'objects' holds one reference
+                if (owners > explained) {
+                    markObject(obj);
+                    foundExternal = true;
+                }
+            }
+        }
         // Sweep unmarked non-tracked objects
         std::vector<std::shared_ptr<Object>> unreachable;
         for (auto& obj : objects) {
